@@ -430,7 +430,7 @@ def exact_acov(a, sigma2, nlags):
 def gen_est_specs(ctx):
     rng = ctx.rng
     specs = []
-    n_sig = ctx.scale(60, 600)
+    n_sig = ctx.scale(60, 300)
     for i in range(n_sig):
         cplx = rng.random() < 0.55
         N = rng.choice([16, 17, 24, 31, 32, 50, 64, 100, 128] + ([255, 256, 512] if ctx.quick else [255, 256, 1000, 1024, 2048, 4096]))
@@ -460,7 +460,7 @@ def gen_est_specs(ctx):
             s = dict(base, rxx=[hxc(z) for z in rx[:p + 1]], rxx_dtype="complex" if cplx else "float", rxx_kind="supplied-autocov", pd=True)
         specs.append(s)
     # exact autocovariance of known stable processes (exact recovery)
-    for i in range(ctx.scale(30, 300)):
+    for i in range(ctx.scale(30, 150)):
         cplx = rng.random() < 0.5
         p = rng.randint(1, 6 if ctx.quick else 10)
         a = stable_coefs(rng, p, cplx, rng.choice([0.5, 0.7, 0.85]))
@@ -472,7 +472,7 @@ def gen_est_specs(ctx):
                       "rxx_dtype": "complex" if cplx else "float", "rxx_kind": "supplied-exact", "pd": True,
                       "alpha": [hxc(z) for z in a], "sigma2": hx(sig2)})
     # short dyadic positive definite sequences (autocorrelation of short integer signals), incl. integer dtype
-    for i in range(ctx.scale(30, 200)):
+    for i in range(ctx.scale(30, 100)):
         cplx = rng.random() < 0.5
         L = rng.randint(4, 10)
         xs = np.array([rng.randint(-4, 4) + (1j * rng.randint(-4, 4) if cplx else 0) for _ in range(L)], dtype=complex)
@@ -490,7 +490,7 @@ def gen_est_specs(ctx):
 def gen_psd_specs(ctx):
     rng = ctx.rng
     out = []
-    for i in range(ctx.scale(60, 500)):
+    for i in range(ctx.scale(60, 250)):
         cplx = rng.random() < 0.5
         p = rng.randint(1, 6 if ctx.quick else 8)
         a = stable_coefs(rng, p, cplx, rng.choice([0.5, 0.8, 0.95]))
@@ -503,7 +503,7 @@ def gen_psd_specs(ctx):
 def gen_gen_specs(ctx):
     rng = ctx.rng
     out = []
-    for i in range(ctx.scale(50, 400)):
+    for i in range(ctx.scale(50, 200)):
         cplx = rng.random() < 0.4
         p = rng.randint(1, 5)
         a = stable_coefs(rng, p, cplx, rng.choice([0.5, 0.8, 0.9]))
